@@ -14,3 +14,20 @@ def register(reg):
                  requires=["n >= 0", "m >= 0"], decreases="m")
     c.ensure("split", "colsum(A, nc, c, T0, n + m) == colsum(A, nc, c, T0, n) + colsum(A, nc, c, T0 + n, m)")
     reg.add(c)
+
+    for kind in ("int",):
+        c = Contract(CL + "lemma_store_below", props=["C11"],
+                     params={"A": Raw(kind), "i": Int(), "v": Int(), "n": Int()},
+                     requires=["0 <= n and n <= i"], decreases="n")
+        c.ensure("below", "ssum(upd(A, i, v), 0, 1, n) == ssum(A, 0, 1, n)")
+        reg.add(c)
+        c = Contract(CL + "lemma_store_sum", props=["C11"],
+                     params={"A": Raw(kind), "i": Int(), "v": Int(), "n": Int()},
+                     requires=["0 <= i and i < n"], decreases="n")
+        c.ensure("sum", "ssum(upd(A, i, v), 0, 1, n) == ssum(A, 0, 1, n) - at(A, i) + v")
+        reg.add(c)
+
+    c = Contract(CL + "lemma_zero_sum", props=["C11"], params={"A": Raw("int"), "n": Int()},
+                 requires=["n >= 0", "forall(k, 0, n, at(A, k) == 0)"], decreases="n")
+    c.ensure("zero", "ssum(A, 0, 1, n) == 0")
+    reg.add(c)
